@@ -208,6 +208,8 @@ def count_inputs(t, d):
     if k == "any":
         return 6 if d == 0 else 15
     n = 2
+    if t.get("fb"):
+        n += count_inputs(t["fb"][0], _dec(d)) + count_inputs(t["fb"][0], 0) ** 2
     for f in t["f"]:
         n += count_inputs(f["t"], _dec(d))
     if d > 0:
